@@ -654,6 +654,9 @@ fn case_convert(sh: &mut Shard, idx: u64, r: &mut Rng) {
         let mut bytes = vec![];
         let mut budget = 1500i64;
         let g = gen_value(r, &ty, &mut bytes, &mut budget);
+        if util::selftest("c10") && idx % 7 == 0 && !bytes.is_empty() {
+            bytes[0] ^= 1;
+        }
         record_constructors(sh, &ty);
         // JSON -> bytes
         sh.evaluations += 1;
